@@ -1,6 +1,13 @@
 //! Kani harnesses over the real `gmsol-store` program crate and the SDK-side `gmsol-programs`.
+//! Harness metadata (`//@` lines) is documented in `/verif/harness/utils/src/lib.rs`.
 #![allow(clippy::all)]
 #![allow(unused)]
 
 #[cfg(kani)]
-mod smoke;
+mod stubs;
+#[cfg(kani)]
+mod c15_pure_pool;
+#[cfg(kani)]
+mod c17_defaults;
+#[cfg(kani)]
+mod c25_price_feed;
